@@ -53,4 +53,11 @@ PROPS = {
                     'different insertion orders (SameBytes); all frame kinds'},
     'C15': {'rule': 'SetTZ(z) then encode/decode of naive, aware and struct_time instants (DST transition hours +-1 s) in-process '
                     'and in fresh interpreters started with TZ=z; the specification never reads the zone'},
+    'C16': {'rule': 'histories of constructions / mutations / encodes / decodes / failed decodes on live objects: after every '
+                    'action the projection of every live object (values and container identity) is compared with the object '
+                    'world of the specification; threads: TLC-generated interleavings replayed by a line-level scheduler, '
+                    'every call judged against the pure operator',
+            'mc': _mc({'module': 'MC_Threads', 'cfg': 'MC_Threads', 'tier': 'both', 'actions': ['Begin', 'Step', 'End']},
+                      {'module': 'MC_Threads', 'cfg': 'MC_Threads_dev', 'tier': 'both', 'expect_violation': 'PureResults'}),
+            'gen': s2c.gen_threads},
 }
